@@ -424,6 +424,10 @@ func runC04(p *Program, r *Result) {
 			checkSentinelLoop(p, r, fn, il.callee)
 		}
 	}
+	r.Rule("R04.8", "the passphrase identity refuses (with a fatal error) only a header in which an scrypt stanza has company; any other header it does not match yields the sentinel (= R10.2)", 1)
+	if idu := r.anchor(pkgAge, "ScryptIdentity", "Unwrap"); idu != nil {
+		checkLoneScan(p, r, idu)
+	}
 	r.Rule("R04.5", "a stanza of another type yields the sentinel, so every non-matching identity is counted instead of aborting Decrypt (= R01.4)", 4)
 	checkTypeGate(p, r)
 	r.Rule("R04.6", "keys are stored and used verbatim: constructor and wrap/unwrap recipes equal the specification table", 10)
